@@ -67,13 +67,30 @@ var opTimeout = 2 * time.Second
 // after a few of them.
 var hangs int
 
+// inconclusive counts watchdog expiries that did not reproduce when the same input was re-run at
+// once with a five times longer limit (a loaded machine, not the code under test): the re-run's
+// observations are used and the expiry is only reported in the histogram.
+var inconclusive int
+
 func runDeque(in Sx) Sx {
+	r, hung := runDequeOnce(in, opTimeout)
+	if hung {
+		if r2, hung2 := runDequeOnce(in, 5*opTimeout); !hung2 {
+			inconclusive++
+			return r2
+		}
+		hangs++
+	}
+	return r
+}
+
+func runDequeOnce(in Sx, limit time.Duration) (Sx, bool) {
 	ctor, ops := in.At(1), in.At(2)
 	type fin struct {
 		mc  int
 		buf []interface{}
 	}
-	results := make(chan Sx)
+	results := make(chan Sx, ops.Len()+1)
 	final := make(chan fin, 1)
 	go func() {
 		var q *queue.Deque
@@ -90,7 +107,7 @@ func runDeque(in Sx) Sx {
 	}()
 	res := make([]Sx, 0, ops.Len())
 	hung := false
-	timer := time.NewTimer(opTimeout)
+	timer := time.NewTimer(limit)
 	defer timer.Stop()
 	for k := 0; k < ops.Len(); k++ {
 		if !hung {
@@ -100,27 +117,26 @@ func runDeque(in Sx) Sx {
 				default:
 				}
 			}
-			timer.Reset(opTimeout)
+			timer.Reset(limit)
 			select {
 			case r := <-results:
 				res = append(res, r)
 				continue
 			case <-timer.C:
 				hung = true // the goroutine is abandoned (it keeps spinning until the harness exits)
-				hangs++
 			}
 		}
 		res = append(res, List(Int(3), List(), Int(-1), Int(-1), Int(-1), Int(-1)))
 	}
 	if hung {
-		return List(ListOf(res), List(Int(-1), List()))
+		return List(ListOf(res), List(Int(-1), List())), true
 	}
 	f := <-final
 	bs := make([]Sx, len(f.buf))
 	for i, b := range f.buf {
 		bs[i] = val(b)
 	}
-	return List(ListOf(res), List(Int(int64(f.mc)), ListOf(bs)))
+	return List(ListOf(res), List(Int(int64(f.mc)), ListOf(bs))), false
 }
 
 func dequeOp(q *queue.Deque, op Sx) Sx {
@@ -254,6 +270,17 @@ func runUnbounded(in Sx) Sx {
 // forced schedule: g goroutines, each executes the calls the schedule assigns to it, one at a
 // time, when the driver hands it the turn.
 func runScheduled(in Sx) Sx {
+	r, hung := runScheduledOnce(in, opTimeout)
+	if hung {
+		if r2, hung2 := runScheduledOnce(in, 5*opTimeout); !hung2 {
+			inconclusive++
+			return r2
+		}
+	}
+	return r
+}
+
+func runScheduledOnce(in Sx, limit time.Duration) (Sx, bool) {
 	g, sched := in.At(1).AsInt(), in.At(2)
 	if g < 1 {
 		g = 1
@@ -293,20 +320,20 @@ func runScheduled(in Sx) Sx {
 			case r := <-done:
 				res = append(res, r)
 				continue
-			case <-time.After(opTimeout): // e.g. the mutex was left locked by a call that panicked
+			case <-time.After(limit): // e.g. the mutex was left locked by a call that panicked
 				hung = true
 			}
 		}
 		res = append(res, List(Int(4), List(), Int(-1), Int(-1)))
 	}
 	if hung {
-		return List(Ints(0, 0), ListOf(res), List(List(), Int(-1), Int(-1), Int(-1)))
+		return List(Ints(0, 0), ListOf(res), List(List(), Int(-1), Int(-1), Int(-1))), true
 	}
 	for _, c := range cmds {
 		close(c)
 	}
 	wg.Wait()
-	return fifoTail(q, res)
+	return fifoTail(q, res), false
 }
 
 // free-running producers and consumers
@@ -315,13 +342,24 @@ func runStress(in Sx) Sx {
 	if P < 1 || P > 64 || C < 1 || C > 64 || n < 0 || n > 1<<19 {
 		return List()
 	}
-	res := make(chan Sx, 1)
-	go func() { res <- stress(P, C, n) }()
-	select {
-	case r := <-res:
-		return r
-	case <-time.After(20 * time.Second): // dead-lock (e.g. a panic left the mutex locked)
-		return List(List(), List(), Int(-1))
+	for attempt := 0; ; attempt++ {
+		res := make(chan Sx, 1)
+		go func() { res <- stress(P, C, n) }()
+		limit := 20 * time.Second
+		if attempt > 0 {
+			limit = 100 * time.Second
+		}
+		select {
+		case r := <-res:
+			if attempt > 0 {
+				inconclusive++
+			}
+			return r
+		case <-time.After(limit): // dead-lock (e.g. a panic left the mutex locked)
+			if attempt > 0 {
+				return List(List(), List(), Int(-1))
+			}
+		}
 	}
 }
 
@@ -876,5 +914,9 @@ func gen(a Args, out *Out) {
 		in := Ints(3, int64(P), int64(C), int64(n))
 		out.Case("concurrent-stress", P+C > 2, in, run(in))
 		out.CountN("stress:enqueued", P*n)
+	}
+	if inconclusive > 0 {
+		out.CountN("watchdog:inconclusive(expired, did not reproduce on re-run)", inconclusive)
+		out.Note("%d watchdog expiries did not reproduce on an immediate re-run with a longer limit: classified inconclusive, the re-run's observations were used", inconclusive)
 	}
 }
